@@ -5,11 +5,11 @@
 package simrt
 
 import (
-	"runtime"
-	"reflect"
-	"os"
 	"fmt"
 	"hash/fnv"
+	"os"
+	"reflect"
+	"runtime"
 	"runtime/debug"
 	"sort"
 	"strings"
@@ -36,7 +36,7 @@ func (r *Rand) Intn(n int) int {
 	}
 	return int(r.Uint64() % uint64(n))
 }
-func (r *Rand) Float64() float64 { return float64(r.Uint64()>>11) / float64(1<<53) }
+func (r *Rand) Float64() float64    { return float64(r.Uint64()>>11) / float64(1<<53) }
 func (r *Rand) Bool(p float64) bool { return r.Float64() < p }
 func (r *Rand) Fork(tag string) *Rand {
 	h := fnv.New64a()
@@ -87,9 +87,9 @@ type Task struct {
 	prio        int
 	// busy-wait detection that survives non-blocking lock acquisitions and inner range loops
 	// (both reset loopSite/loopN): iterations of one `for {}` site without any Version change
-	spinSite string
-	spinN    int
-	spinVer  uint64
+	spinSite    string
+	spinN       int
+	spinVer     uint64
 	spinQuick   bool // parked after only SpinQuick iterations: re-run once before quiescence is declared
 	spinConfirm bool // running that confirmation slice (full SpinPark threshold applies)
 
@@ -101,9 +101,9 @@ type Task struct {
 	pendWrite bool
 	pendSite  string
 
-	deadline time.Duration // virtual time at which a blocked I/O gives up (-1: none)
-	held map[*Mutex]string // mutexes currently owned -> lock site
-	OnDone func()
+	deadline time.Duration     // virtual time at which a blocked I/O gives up (-1: none)
+	held     map[*Mutex]string // mutexes currently owned -> lock site
+	OnDone   func()
 }
 
 type killSentinel struct{}
@@ -136,37 +136,37 @@ type PPick struct {
 }
 
 type Problem struct {
-	Kind   string // "panic", "exit", "livelock", "lock-leak", "deadlock", "unlock-unlocked"
-	Task   string
+	Kind     string // "panic", "exit", "livelock", "lock-leak", "deadlock", "unlock-unlocked"
+	Task     string
 	TaskKind TaskKind
-	Site   string
-	Detail string
-	Step   uint64
-	Action int
-	Frames string // innermost Havoc frames (function:line in the instrumented copy), for triage only
+	Site     string
+	Detail   string
+	Step     uint64
+	Action   int
+	Frames   string // innermost Havoc frames (function:line in the instrumented copy), for triage only
 }
 
 type Sim struct {
-	Seed    uint64
-	tasks   []*Task
-	cur     *Task
-	back    chan struct{}
-	Step    uint64
-	Version uint64
-	now     time.Duration
-	timers  []*timer
+	Seed     uint64
+	tasks    []*Task
+	cur      *Task
+	back     chan struct{}
+	Step     uint64
+	Version  uint64
+	now      time.Duration
+	timers   []*timer
 	timerSeq uint64
 
-	sched   *Rand
-	code    *Rand
-	Policy  Policy
-	pctPts  []uint64
-	pctNext int
-	actStep     uint64
-	preemptSet  map[PPoint]bool
-	pickQ       map[int][]int
-	RecPreempt  []PPoint
-	RecPick     []PPick
+	sched      *Rand
+	code       *Rand
+	Policy     Policy
+	pctPts     []uint64
+	pctNext    int
+	actStep    uint64
+	preemptSet map[PPoint]bool
+	pickQ      map[int][]int
+	RecPreempt []PPoint
+	RecPick    []PPick
 
 	Exited   bool
 	ExitCode int
@@ -175,27 +175,28 @@ type Sim struct {
 	Problems []Problem
 	Action   int
 
-	digest   uint64
-	Trace    []string // optional full event log
-	TraceOn  bool
+	digest  uint64
+	Trace   []string // optional full event log
+	TraceOn bool
 
 	chans map[uintptr]*chanState
 	net   *netState
 
-	StepBudget  uint64 // per Run call
-	sliceEnd    uint64 // step at which the task running now is declared to run without bound
-	LoopLimit   int    // iterations at one site without version change => livelock (handler tasks)
-	SpinPark    int    // iterations after which a KindGo task is parked as spinner
-	SpinQuick   int    // optional (0 = off): park a spinner already after this many iterations; before
-	                   // quiescence is declared it gets one more slice of SpinPark iterations
+	StepBudget uint64 // per Run call
+	sliceEnd   uint64 // step at which the task running now is declared to run without bound
+	LoopLimit  int    // iterations at one site without version change => livelock (handler tasks)
+	SpinPark   int    // iterations after which a KindGo task is parked as spinner
+	SpinQuick  int    // optional (0 = off): park a spinner already after this many iterations; before
+	// quiescence is declared it gets one more slice of SpinPark iterations
 	Stats       Stats
 	yieldCount  map[string]int
 	RMWPreempts uint64
 	pauseSite   string // RunToSite: hand the baton back at the nth yield whose site contains this
 	pauseSiteN  int
 	sitePaused  bool
+	SiteTask    *Task // the task the last successful RunToSite paused
 	mapRaces    map[string]bool
-	sqlHeld     []any // *sql.Rows / *sql.Tx handed out to tasks of this process image
+	sqlHeld     []any  // *sql.Rows / *sql.Tx handed out to tasks of this process image
 	OnSQL       func() // driver hook: called right before each database statement executes
 	PauseAt     uint64 // hand the baton back to the driver as soon as Step reaches this value (0 = off)
 }
@@ -260,9 +261,9 @@ func (s *Sim) SetPolicy(p Policy) {
 	}
 }
 
-func (s *Sim) CodeRand() *Rand { return s.code }
+func (s *Sim) CodeRand() *Rand  { return s.code }
 func (s *Sim) SchedRand() *Rand { return s.sched }
-func (s *Sim) Digest() uint64 { return s.digest }
+func (s *Sim) Digest() uint64   { return s.digest }
 
 func (s *Sim) logEvent(kind string, t *Task, site string) {
 	// FNV-1a over (step, task id, kind, site); never draws, never reads a clock.
@@ -453,6 +454,7 @@ func Yield(site string) {
 		if s.pauseSiteN <= 0 {
 			s.pauseSite = ""
 			s.sitePaused = true
+			s.SiteTask = t
 			t.State = Runnable
 			s.park(t)
 			return
@@ -527,6 +529,7 @@ func Access(site string, mode byte) {
 			if s.pauseSiteN <= 0 {
 				s.pauseSite = ""
 				s.sitePaused = true
+				s.SiteTask = t
 				t.State = Runnable
 				s.park(t)
 				return
@@ -843,6 +846,16 @@ func (s *Sim) StallRunnable() []*Task {
 	return ts
 }
 
+// Stall freezes one task (see StallRunnable): it gets no CPU until released.
+func (s *Sim) Stall(t *Task) []*Task {
+	if t == nil || t.Stalled || t.State == Done {
+		return nil
+	}
+	t.Stalled = true
+	s.net.FaultLog["stalled-goroutine"]++
+	return []*Task{t}
+}
+
 func (s *Sim) Release(ts []*Task) {
 	for _, t := range ts {
 		t.Stalled = false
@@ -1028,7 +1041,6 @@ func Exit(code int) {
 func Fatal(v ...any)                 { Exit(1) }
 func Fatalf(format string, v ...any) { Exit(1) }
 func Fatalln(v ...any)               { Exit(1) }
-
 
 // havocFrames returns up to n innermost Havoc frames as "func (file:line)".
 func havocFrames(stack string, n int) string {
